@@ -919,8 +919,11 @@ def compare_vals(self, op, a, b, node):
             return Const((a.dotted == b.dotted) == isinstance(op, ast.Eq), t)
         for x, y in ((a, b), (b, a)):
             if isinstance(x, Opaque) and x.what.startswith('dtype:') and isinstance(y, ExtV) and x.what != 'dtype:?' \
-                    and y.base in ('complex', 'float', 'complex128', 'float64'):
-                same = (x.what == 'dtype:complex') == y.base.startswith('complex')
+                    and y.base in ('complex', 'float', 'complex128', 'float64', 'complex64'):
+                if x.what == 'dtype:complex64':
+                    same = y.base == 'complex64'          # numpy: dtype('complex64') == complex is False
+                else:
+                    same = (x.what == 'dtype:complex') == y.base.startswith('complex')
                 return Const(same == isinstance(op, ast.Eq), t)
         if isinstance(a, Opaque) and isinstance(b, ExtV) and a.what.startswith('type:'):
             same = a.what[5:] == b.base
@@ -1124,6 +1127,8 @@ def attr_of(self, v, attr, st, n):
             self.share(r, v, whole=False)
             return r
         if attr == 'dtype':
+            if nv.cplx is True and getattr(nv, 'c64', False):
+                return Opaque('dtype:complex64')
             return Opaque('dtype:' + {True: 'complex', False: 'float', None: '?'}[nv.cplx])
         if attr == 'flat':
             return nv
